@@ -5,6 +5,7 @@ import Driver.CommitLogD
 import Driver.FrameD
 import Driver.CodecD
 import Driver.CStateD
+import Driver.CLoopD
 
 def main (args : List String) : IO UInt32 := do
   match args with
@@ -24,6 +25,8 @@ def main (args : List String) : IO UInt32 := do
   | ["cstate-C02", "--selftest-wrong"] => Driver.CStateD.run true ["C02"]
   | ["cstate-C10", "--selftest-wrong"] => Driver.CStateD.run true ["C10"]
   | ["cstate-C11", "--selftest-wrong"] => Driver.CStateD.run true ["C11"]
+  | ["cloop"] => Driver.runHandler (Driver.CLoopD.handler false)
+  | ["cloop", "--selftest-wrong"] => Driver.runHandler (Driver.CLoopD.handler true)
   | ["clog"] => Driver.runHandler (Driver.CommitLogD.handler false)
   | ["clog", "--selftest-wrong"] => Driver.runHandler (Driver.CommitLogD.handler true)
   | ["router", prop] => Driver.runHandler (Driver.RouterD.handler prop false)
